@@ -86,30 +86,29 @@ Print Assumptions c13_run_as.
    the remaining homes; it is checked on every generated case instead. *)
 Theorem c13_homes_partial : forall maxl f e,
   (ue_home e = no_home -> ensure_home maxl f e = FOk f) /\
-  (forall n, stat maxl f (path_of (ue_home e)) = FOk n -> is_dir n = true -> ensure_home maxl f e = FOk f) /\
-  (forall n, ue_home e <> no_home -> stat maxl f (path_of (ue_home e)) = FOk n -> is_dir n = false ->
+  (forall n, stat maxl f (home_path (ue_home e)) = FOk n -> is_dir n = true -> ensure_home maxl f e = FOk f) /\
+  (forall n, ue_home e <> no_home -> stat maxl f (home_path (ue_home e)) = FOk n -> is_dir n = false ->
              ensure_home maxl f e = FErr) /\
-  (forall f', ue_home e <> no_home -> stat maxl f (path_of (ue_home e)) = FNotExist -> ensure_home maxl f e = FOk f' ->
-     exists f1 f2, mkdirall maxl f (pdir (path_of (ue_home e))) home_parent_perm = FOk f1 /\
-                   mkdir maxl f1 (path_of (ue_home e)) home_perm = FOk f2 /\
-                   chown maxl f2 (path_of (ue_home e)) (ue_uid e) (ue_gid e) = FOk f').
+  (forall f', ue_home e <> no_home -> stat maxl f (home_path (ue_home e)) = FNotExist -> ensure_home maxl f e = FOk f' ->
+     exists f1 f2, mkdirall maxl f (pdir (home_path (ue_home e))) home_parent_perm = FOk f1 /\
+                   mkdir maxl f1 (home_path (ue_home e)) home_perm = FOk f2 /\
+                   chown maxl f2 (home_path (ue_home e)) (ue_uid e) (ue_gid e) = FOk f').
 Proof.
   intros maxl f e. split; [apply ensure_home_homeless|]. split; [intros; eapply ensure_home_existing_dir; eauto|].
   split; [intros; eapply ensure_home_non_directory; eauto|]. intros. eapply ensure_home_missing; eauto.
 Qed.
 Print Assumptions c13_homes_partial.
 
-(* C13-F3: a missing home declared as "/srv/ts/" ends up 0755 (the user owns a
-   0755 /srv/ts, the 0700 directory is /srv/ts/ts, root-owned) *)
-Theorem c13_homes_trailing_slash_refuted :
+(* the former finding C13-F3 (fixed by 82f3aa3, filepath.Clean): a missing home
+   declared as "/srv/ts/" is the 0700 directory itself, nothing is nested in it *)
+Theorem c13_homes_trailing_slash_fixed :
   exists e f', ue_home e = "/srv/ts/" /\ ensure_home 40 tree_with_etc e = FOk f' /\
     stat 40 tree_with_etc (path_of (ue_home e)) = FNotExist /\
-    option_map sinfo_of (match stat 40 f' (path_of (ue_home e)) with FOk n => Some n | _ => None end)
-      = Some (mkSinfo KDir spec_parent_mode (ue_uid e) (ue_gid e)) /\
     home_realised_b (ue_uid e) (ue_gid e) None
-      (option_map sinfo_of (match stat 40 f' (path_of (ue_home e)) with FOk n => Some n | _ => None end)) = false.
-Proof. exact home_trailing_slash_refuted. Qed.
-Print Assumptions c13_homes_trailing_slash_refuted.
+      (option_map sinfo_of (match stat 40 f' (path_of (ue_home e)) with FOk n => Some n | _ => None end)) = true /\
+    stat 40 f' (path_of "/srv/ts/ts") = FNotExist.
+Proof. exact home_trailing_slash_fixed. Qed.
+Print Assumptions c13_homes_trailing_slash_fixed.
 
 (* c13_mutations, for the mutation applied last.  For every tree and sequence:
    if mutatePaths succeeds on ms ++ [m], the node that m's path RESOLVES to in the
